@@ -303,6 +303,25 @@ def fam_partial_overrides():
     return out
 
 
+def fam_zero_overrides():
+    """per-node values that are exactly 0 (a value, not 'absent'), on nodes that are not the first user of the operator"""
+    out = []
+    for variant in range(2):
+        fp = FP()
+        ops = {'o1': op_two_inputs(fp), 'li': op_leaky(fp)}
+        nodes = {f"n{i}": NodeSpec(['o1'], _node_overrides(fp, ops, ['o1'])) for i in range(3)}
+        nodes['n1'].overrides[('o1', 'k')] = F(0)
+        nodes['n2'].overrides[('o1', 'g')] = F(0)
+        nodes['n2'].overrides[('o1', 'w')] = F(0)          # unconnected input with default 0
+        if variant:
+            nodes['n1'].overrides[('o1', 'c')] = F(0)
+        nodes['m0'] = NodeSpec(['li'], _node_overrides(fp, ops, ['li']))
+        edges = [EdgeSpec('n0/o1/x', 'n1/o1/u', fp()), EdgeSpec('m0/li/x', 'n0/o1/w', fp()), EdgeSpec('n1/o1/x', 'm0/li/u', fp()),
+                 EdgeSpec('n2/o1/x', 'n1/o1/w', F(0) if variant else fp())]
+        out.append((f"FZ:{variant}", ModelSpec('m', ops, nodes, edges, note="per-node values equal to 0")))
+    return out
+
+
 def fam_equal_values():
     """nodes sharing one NodeTemplate object / all-equal parameter values (constant-vector collapse path)"""
     out = []
@@ -589,6 +608,14 @@ def fam_discrete_delays_fixed():
                                                                      E('s0/src/s', 'a1/li/u', fp(), delay=dt * 2),
                                                                      E('s0/src/s', 'a2/li/u', fp(), delay=dt * 4)],
                                                          "scalar source, three delays, not in ascending order")))
+    out.append(("F9x:same-delay-permuted-sources", mk(lambda fp: [E('a1/li/x', 'a0/li/u', fp(), delay=dt * 3),
+                                                                  E('a0/li/x', 'a1/li/u', fp(), delay=dt * 3),
+                                                                  E('a2/li/x', 'a2/li/u', fp(), delay=dt * 3)],
+                                                      "one delay for every unit of the source vector, edges listed from a1, a0, a2")))
+    out.append(("F9x:same-delay-repeated-source", mk(lambda fp: [E('a0/li/x', 'a1/li/u', fp(), delay=dt * 2),
+                                                                 E('a0/li/x', 'a2/li/u', fp(), delay=dt * 2),
+                                                                 E('a2/li/x', 'a0/li/u', fp(), delay=dt * 2)],
+                                                     "three edges with one delay, a0 used twice, a1 never")))
     out.append(("F9x:rounding", mk(lambda fp: [E('a0/li/x', 'a1/li/u', fp(), delay=dt * F(12, 5)),
                                                E('a1/li/x', 'a2/li/u', fp(), delay=dt * F(13, 5))], "d/dt = 2.4 and 2.6")))
     return out
